@@ -51,7 +51,7 @@ Proof.
   unfold bounds in *. cbn [map]. rewrite H1, H2, IH. reflexivity.
 Qed.
 
-Lemma bounds_start cs out : bounds out = bounds cs -> stream_start out = stream_start cs.
+Lemma bounds_start cs out : bounds out = bounds cs -> first_start out = first_start cs.
 Proof.
   destruct cs as [|c cs], out as [|d out]; cbn; try discriminate; [reflexivity|].
   intros H. inversion H. reflexivity.
@@ -74,11 +74,11 @@ Proof.
   exact IH.
 Qed.
 
-Lemma bounds_end cs out : bounds out = bounds cs -> stream_end out = stream_end cs.
+Lemma bounds_end cs out : bounds out = bounds cs -> final_end out = final_end cs.
 Proof.
   intros H. pose proof (bounds_map_cend _ _ H) as Hm.
   destruct cs as [|c cs], out as [|d out]; cbn in H; try discriminate; [reflexivity|].
-  unfold stream_end. f_equal.
+  unfold final_end. f_equal.
   destruct (last_map_cend (d :: out) d 0) as [E1|E1]; [|discriminate].
   destruct (last_map_cend (c :: cs) c 0) as [E2|E2]; [|discriminate].
   rewrite E1, E2, Hm. reflexivity.
@@ -98,3 +98,182 @@ Proof.
   destruct cs as [|c2 cs], out as [|d2 out]; cbn in H3; try discriminate; [exact I|].
   inversion H3. congruence.
 Qed.
+
+(* ---------------------------------------------------------------------------------------- *)
+(* the saver                                                                                 *)
+(* ---------------------------------------------------------------------------------------- *)
+
+(* the fields of the metadata the saver never touches while saving chunks *)
+Definition md_static_eq (m m' : metadata) : Prop :=
+  md_run m' = md_run m /\ md_dtype m' = md_dtype m /\ md_kind m' = md_kind m /\
+  md_rowtype m' = md_rowtype m /\ md_compressor m' = md_compressor m /\ md_target m' = md_target m /\
+  md_ended m' = md_ended m /\ md_exception m' = md_exception m.
+
+Lemma md_static_eq_refl m : md_static_eq m m.
+Proof. unfold md_static_eq; tauto. Qed.
+
+Lemma md_static_eq_trans a b c : md_static_eq a b -> md_static_eq b c -> md_static_eq a c.
+Proof. unfold md_static_eq. intuition congruence. Qed.
+
+Lemma md_static_comp m m' : md_static_eq m m' -> comp_of m' = comp_of m.
+Proof. intros (_ & _ & _ & _ & H & _). unfold comp_of. rewrite H. reflexivity. Qed.
+
+(* the loader stamps data type, kind and target size from the metadata *)
+Definition restamp (dt kind tgt : Z) (c : chunk) : chunk :=
+  mkchunk (cstart c) (cend c) (crows c) dt kind (crun c) tgt.
+
+Lemma restamp_same_data dt kind tgt cs : Forall2 same_data cs (map (restamp dt kind tgt) cs).
+Proof. induction cs as [|c cs IH]; constructor; [unfold same_data; cbn; tauto|exact IH]. Qed.
+
+Fixpoint stored_at (cs : list chunk) (i k : Z) : option (list row) :=
+  match cs with
+  | [] => None
+  | c :: r =>
+      match stored_at r (i + 1) k with
+      | Some x => Some x
+      | None => match crows c with [] => None | rows => if i =? k then Some rows else None end
+      end
+  end.
+
+Lemma stored_at_lt cs : forall i k, k < i -> stored_at cs i k = None.
+Proof.
+  induction cs as [|c cs IH]; intros i k H; cbn [stored_at]; [reflexivity|].
+  rewrite IH by lia. destruct (crows c); [reflexivity|]. destruct (i =? k) eqn:E; [lia|reflexivity].
+Qed.
+
+Lemma stored_at_nth cs : forall i j c,
+  nth_error cs j = Some c ->
+  stored_at cs i (i + Z.of_nat j) = match crows c with [] => None | rows => Some rows end.
+Proof.
+  induction cs as [|c0 cs IH]; intros i j c H; [destruct j; discriminate|].
+  destruct j as [|j]; cbn [nth_error] in H.
+  - inversion H; subst c0. cbn [stored_at]. rewrite stored_at_lt by lia.
+    destruct (crows c); [reflexivity|]. replace (i + Z.of_nat 0) with i by lia. rewrite Z.eqb_refl. reflexivity.
+  - cbn [stored_at]. replace (i + Z.of_nat (S j)) with ((i + 1) + Z.of_nat j) by lia.
+    rewrite (IH (i + 1) j c H). destruct (crows c) eqn:Ec; [|reflexivity].
+    destruct (crows c0); [reflexivity|]. destruct (i =? i + 1 + Z.of_nat j) eqn:E; [lia|reflexivity].
+Qed.
+
+Section Codec.
+  Variable blob : Type.
+  Variable encode : Z -> list row -> blob.
+  Variable decode : Z -> blob -> option (list row).
+  Variable bsize : blob -> Z.
+  (* the byte codec is a bijection on what it is given: numpy buffer + compressor round trip *)
+  Hypothesis decode_encode : forall k rs, decode k (encode k rs) = Some rs.
+
+  Local Notation save_ := (save blob encode bsize).
+  Local Notation make_info_ := (make_info blob encode bsize).
+  Local Notation save_all_ := (save_all blob encode bsize).
+  Local Notation save_loop_ := (save_loop blob encode bsize).
+  Local Notation save_from_ := (save_from blob encode bsize).
+  Local Notation read_chunk_ := (read_chunk blob decode).
+  Local Notation read_chunks_ := (read_chunks blob decode).
+  Local Notation backend_loader_ := (backend_loader blob decode).
+  Local Notation load_ := (load blob decode).
+  Local Notation saver_ := (saver blob).
+
+  Fixpoint infos_from (cfg : save_cfg) (comp : Z) (cs : list chunk) (i : Z) : list chunk_info :=
+    match cs with [] => [] | c :: r => make_info_ cfg comp c i :: infos_from cfg comp r (i + 1) end.
+
+  Fixpoint files_from (comp : Z) (cs : list chunk) (i : Z) (files : list (Z * blob)) : list (Z * blob) :=
+    match cs with
+    | [] => files
+    | c :: r => files_from comp r (i + 1)
+                  (match crows c with [] => files | rows => write_file i (encode comp rows) files end)
+    end.
+
+  Lemma lookup_files_from comp : forall cs i files k,
+    lookup k (files_from comp cs i files) =
+    match stored_at cs i k with Some rows => Some (encode comp rows) | None => lookup k files end.
+  Proof.
+    induction cs as [|c cs IH]; intros i files k; cbn [files_from stored_at]; [reflexivity|].
+    rewrite IH. destruct (stored_at cs (i + 1) k); [reflexivity|].
+    destruct (crows c) as [|r0 rest]; [reflexivity|].
+    rewrite lookup_write_file. destruct (i =? k); reflexivity.
+  Qed.
+
+  Lemma save_step cfg (s : saver_) c i :
+    sc_forked cfg = false -> sv_closed s = false ->
+    exists s', save_ cfg s c i = Ok s' /\ sv_closed s' = false /\ sv_final s' = sv_final s /\
+      sv_meta_files s' = sv_meta_files s /\ sv_disk s' = sv_md s' /\ md_static_eq (sv_md s) (sv_md s') /\
+      md_chunks (sv_md s') = md_chunks (sv_md s) ++ [make_info_ cfg (comp_of (sv_md s)) c i] /\
+      sv_files s' = match crows c with
+                    | [] => sv_files s
+                    | rows => write_file i (encode (comp_of (sv_md s)) rows) (sv_files s)
+                    end.
+  Proof.
+    intros Hf Hc. unfold save. rewrite Hc, Hf.
+    eexists. split; [reflexivity|]. cbn.
+    destruct (i =? 0); cbn; unfold md_static_eq; cbn; repeat split; reflexivity.
+  Qed.
+
+  Lemma save_all_ok cfg : sc_forked cfg = false -> forall cs (s : saver_) i, sv_closed s = false ->
+    exists s', save_all_ cfg s cs i = Ok (s', i + Z.of_nat (length cs)) /\ sv_closed s' = false /\
+      sv_final s' = sv_final s /\ sv_meta_files s' = sv_meta_files s /\
+      (sv_disk s = sv_md s -> sv_disk s' = sv_md s') /\ md_static_eq (sv_md s) (sv_md s') /\
+      md_chunks (sv_md s') = md_chunks (sv_md s) ++ infos_from cfg (comp_of (sv_md s)) cs i /\
+      sv_files s' = files_from (comp_of (sv_md s)) cs i (sv_files s).
+  Proof.
+    intros Hf. induction cs as [|c cs IH]; intros s i Hc.
+    - exists s. cbn [save_all length infos_from files_from]. rewrite app_nil_r.
+      replace (i + Z.of_nat 0) with i by lia. repeat split; auto using md_static_eq_refl.
+    - destruct (save_step cfg s c i Hf Hc) as (s1 & E1 & C1 & F1 & M1 & D1 & S1 & K1 & L1).
+      destruct (IH s1 (i + 1) C1) as (s2 & E2 & C2 & F2 & M2 & D2 & S2 & K2 & L2).
+      exists s2. cbn [save_all]. rewrite E1. cbn [res_bind]. rewrite E2.
+      replace (i + 1 + Z.of_nat (length cs)) with (i + Z.of_nat (length (c :: cs))) by (cbn [length]; lia).
+      split; [reflexivity|]. split; [exact C2|]. split; [congruence|]. split; [congruence|].
+      split; [intros _; exact (D2 D1)|]. split; [eapply md_static_eq_trans; eauto|].
+      rewrite (md_static_comp _ _ S1) in K2, L2.
+      split.
+      + rewrite K2, K1, <- app_assoc. reflexivity.
+      + rewrite L2, L1. reflexivity.
+  Qed.
+
+  Lemma save_all_app cfg : forall a b (s : saver_) i,
+    save_all_ cfg s (a ++ b) i =
+    match save_all_ cfg s a i with Ok (s1, i1) => save_all_ cfg s1 b i1 | Err e => Err e end.
+  Proof.
+    induction a as [|c a IH]; intros b s i; cbn [app save_all]; [reflexivity|].
+    destruct (save_ cfg s c i) as [s1|e]; cbn [res_bind]; [apply IH|reflexivity].
+  Qed.
+
+  Lemma save_loop_norechunk cfg : forall cs cache (s : saver_) i s' i',
+    save_all_ cfg s cs i = Ok (s', i') -> save_loop_ cfg false cache s i cs = (s', Ok tt).
+  Proof.
+    induction cs as [|c cs IH]; intros cache s i s' i' H; cbn [save_loop].
+    - cbn [save_all] in *. inversion H; subst. reflexivity.
+    - cbn [save_all] in *. destruct (save_ cfg s c i) as [s1|e]; cbn [res_bind] in *; [|discriminate].
+      eapply IH. exact H.
+  Qed.
+
+  Lemma save_loop_rechunk cfg : forall cs cache (s : saver_) i outs s' i',
+    rechunk_from cache cs = Ok outs -> save_all_ cfg s outs i = Ok (s', i') ->
+    save_loop_ cfg true cache s i cs = (s', Ok tt).
+  Proof.
+    induction cs as [|c cs IH]; intros cache s i outs s' i' Hr Hs; cbn [save_loop rechunk_from] in *.
+    - inversion Hr; subst. rewrite Hs. reflexivity.
+    - destruct (receive cache c) as [[out cache']|e]; cbn [res_bind] in Hr; [|discriminate].
+      destruct (rechunk_from cache' cs) as [more|e] eqn:Em; cbn [res_bind] in Hr; [|discriminate].
+      inversion Hr; subst outs. rewrite save_all_app in Hs.
+      destruct (save_all_ cfg s out i) as [[s1 i1]|e]; [|discriminate].
+      eapply IH; eauto.
+  Qed.
+
+  Lemma close_ok (s : saver_) exc :
+    sv_closed s = false -> sv_final s = false -> sv_meta_files s = [] ->
+    exists s', close s exc = Ok s' /\ sv_closed s' = true /\ sv_final s' = true /\ sv_files s' = sv_files s /\
+      sv_meta_files s' = [] /\ sv_disk s' = sv_md s' /\ md_chunks (sv_md s') = md_chunks (sv_md s) /\
+      md_ended (sv_md s') = true /\ md_exception (sv_md s') = (exc || md_exception (sv_md s)) /\
+      md_run (sv_md s') = md_run (sv_md s) /\ md_dtype (sv_md s') = md_dtype (sv_md s) /\
+      md_kind (sv_md s') = md_kind (sv_md s) /\ md_rowtype (sv_md s') = md_rowtype (sv_md s) /\
+      md_compressor (sv_md s') = md_compressor (sv_md s) /\ md_target (sv_md s') = md_target (sv_md s) /\
+      (md_chunks (sv_md s) <> [] ->
+       md_start (sv_md s') = ci_start_of (md_chunks (sv_md s)) /\ md_end (sv_md s') = ci_end_of (md_chunks (sv_md s))).
+  Proof.
+    intros Hc Hf Hm. unfold close. rewrite Hc, Hf, Hm.
+    eexists. split; [reflexivity|]. cbn [sort_by_key map].
+    destruct exc; cbn [md_chunks md_set_exception]; destruct (md_chunks (sv_md s)) eqn:Ek; cbn;
+      rewrite ?Ek, ?app_nil_r; repeat split; try reflexivity; try congruence.
+  Qed.
+End Codec.
